@@ -188,7 +188,9 @@ func (c *Ctx) buildSSA() {
 			all = append(all, p)
 		}
 	}
-	prog, _ := ssautil.AllPackages(all, ssa.InstantiateGenerics)
+	// SSA bodies only for the packages loaded from source (they have types.Info); built serially so that a
+	// builder panic surfaces in this goroutine and fails the check instead of killing the process.
+	prog, _ := ssautil.Packages(all, ssa.InstantiateGenerics|ssa.BuildSerially)
 	prog.Build()
 	c.prog = prog
 	c.ssaPkgs = map[string]*ssa.Package{}
